@@ -515,7 +515,7 @@ def run(ctx):
                         "FunctionalExtensionality.functional_extensionality_dep, Classical_Prop.classic; all other C17 theorems are closed under the global context",
                         "the model that is compared with the implementation is the code AFTER fixes/C17-1..3.patch (c17_binomial_fix, c17_round_fix, c17_trunc_fix: "
                         "C17_binomial_exact, C17_trunc_round); a tree without a fix is recognised through the as-found model (third output field of the driver) and "
-                        "reported under the known-finding entry; std::gcd is modelled by Z.gcd",
+                        "reported under the known-finding entry; the Euclid loop of the fixed binomial is modelled literally (C17_euclid_gcd)",
                         "x86-64 SSE2 arithmetic: each C++ floating operation is one IEEE round-to-nearest-even operation (no x87 excess precision, no FMA contraction)",
                         "operands are transported as bit patterns (memcpy), results of comparisons as booleans",
                         "long double (x87 80 bit) is not instantiated in the harness; covered by the format-generic theorems only",
